@@ -42,6 +42,10 @@ def scratch_tree(patch):
     if rc:
         raise SystemExit(out)
     rc, out = sh(['git', '-C', wt, 'apply', os.path.abspath(patch)])
+    if rc:
+        # /repo moved on (later fix: commits): merge the change instead
+        rc, out = sh(['git', '-C', wt, 'apply', '--3way',
+                      os.path.abspath(patch)])
     return base, wt, rc, out
 
 
